@@ -47,7 +47,8 @@ fn gen(r: &mut Rng, prop: &str) -> (SCase, Vec<u8>) {
         let nres = r.below(2) as u32;
         let budget = 4 + r.below(28) as i32;
         let maxdepth = 3 + r.below(3) as u32;
-        let mut g = TypedGen { r, out: vec![], nres, next_local: 6, budget, ev: 0, maxdepth };
+        let exit_bias = prop == "C17" || prop == "C16";
+        let mut g = TypedGen { r, out: vec![], nres, next_local: 6, budget, ev: 0, maxdepth, exit_bias };
         let mut labels = vec![(false, nres)];
         let dead = g.seq(&mut labels, 0);
         if nres == 1 && !dead { g.out.push(Op::Const(42)); }
